@@ -243,3 +243,36 @@ def main(pid, module, theorems, tier, seed, rule_extra, trusted_extra):
     assumptions = ["cost/penalty never return NaN (NaN traces are skipped and counted)", "constraints deterministic, idempotent and compatible with the box (generated so)",
                    "IEEE binary64 + - * / and comparisons agree between Lean Float and numpy/CPython"]
     return framework.finish(pid, tier, seed, t0, proof, run, rule, tb, assumptions, search_more=search_more)
+
+
+def replay(pid, path):
+    """re-execute one stored case on the implementation and on the model, reprint the verdict"""
+    import json
+    common.import_mystic()
+    d = json.load(open(path))
+    case = common.unjson(d.get("case") or {})
+    spec = case.get("spec")
+    if spec is None and d.get("correspondence_not_checking"):
+        spec = common.unjson(d["correspondence_not_checking"][0]["case"]).get("spec")
+    if spec is None:
+        print("replay file carries no solver spec (wrapper / proof-stage finding): %s" % d.get("what", d.get("kind")))
+        return 2
+    bad = 0
+    for seed in (0,):
+        rec, s, prob = trace.run_trace(spec, seed)
+        res = solvermon.mon_c04(spec, rec, s) if pid == "C04" else MON[pid](spec, rec)
+        for key, what, ex in res:
+            print("monitor: [%s] %s" % (key, what)); bad += 1
+        for which in CORR[pid]:
+            line, cmp = REQ[which](spec, rec)
+            if line is None:
+                continue
+            leandrv.ensure_driver()
+            rep = leandrv.run_driver([line])[0]
+            for key, what in cmp(rep):
+                print("correspondence(%s): [%s] %s" % (which, key, what)); bad += 1
+    if bad:
+        print("VIOLATION property=%s replay=%s" % (pid, path))
+        return 1
+    print("replay: property held on this case")
+    return 0
